@@ -26,7 +26,8 @@ RULE = (
     'artifacts (joint code paths active) or a mixed batch; distinct by descriptor hash.')
 ASSUMPTIONS = [
     'the all-checks EC factory uses CheckECKeySmallDifference(max_diff=2^10) (documented constructor parameter; '
-    'the default 2^24 table costs 85 s and 3.3 GB per curve); all other checks run in their default configuration',
+    'the default 2^24 table costs 85 s and 3.3 GB per curve); the default configuration itself is exercised by two '
+    'cases of the thorough tier; all other checks run in their default configuration',
     'a false-positive rate near the design bound (2^-37 per key) is not measurable: the check detects '
     'over-eagerness down to roughly 1e-3 per key (quick) / 1e-4 (thorough)',
 ]
@@ -222,8 +223,32 @@ def strat_sigs(tier):
       'shuffle': st.booleans(), 'weak': st.sampled_from([0, 0, 1, 2, 3])})
 
 
+# ---------------------------------------------------------------- EC with the library's default max_diff (thorough only)
+
+def run_ec_default(desc):
+  """The untouched default configuration CheckECKeySmallDifference() (2^24 table: ~85 s, ~3.3 GB)."""
+  mat = Material(desc['m'], 'c07d')
+  cid = eg.STRONG_CURVES[desc['curve'] % len(eg.STRONG_CURVES)]
+  n = eg.ref(cid).n
+  keys = [art.ec_key(cid, *eg.mul_g(cid, 1 + mat.below(n - 1))) for _ in range(desc['count'])]
+  keys.append(_copy(keys[0]))   # the same healthy key listed twice
+  ret = libcall(ec_aggregate_checks.CheckECKeySmallDifference().Check, keys)
+  _assert_clean(keys, 'ec-default-maxdiff', n=len(keys))
+  if ret is not False:
+    raise Violation('ec-default-maxdiff:returned-true', got=repr(ret))
+  return {'nt': True, 'cls': ['ec default max_diff=2^24 %s' % eg.CURVE_NAMES[cid]]}
+
+
+def enum_ec_default(tier):
+  if tier != 'thorough':
+    return
+  for i, curve in enumerate((1, 5)):
+    yield {'m': 4242 + i, 'curve': curve, 'count': 40}
+
+
 ARMS = [
     Arm('rsa', run_rsa, strategy=strat_rsa, quick=320, thorough=2500, budget=(170, 2400), weight=3),
     Arm('ec', run_ec, strategy=strat_ec, quick=32, thorough=800, budget=(170, 2400), weight=2),
+    Arm('ec_default_maxdiff', run_ec_default, enumerate=enum_ec_default, budget=(10, 2400), weight=9),
     Arm('signatures', run_sigs, strategy=strat_sigs, quick=64, thorough=1500, budget=(170, 2400), weight=2),
 ]
